@@ -105,6 +105,10 @@ QuotePerts(v) ==
                         Pert("q_seq+16777216", "te", [q_seq |-> 16777216], NoMods), Pert("q_seq-300", "te", [q_seq |-> -300], NoMods) }
     IN addr \cup ports \cup ids
 
+\* the same perturbed quotes in an error that comes FROM THE TARGET's own address (a target behind a port forwarder, a
+\* target that routes): where the packet comes from never makes up for a quote that names another flow
+QuotePertsT(v) == { [pt EXCEPT !.label = @ \o "@target", !.mods_s = @ @@ [from |-> "TARGET"]] : pt \in QuotePerts(v) }
+
 \* perturbed direct replies; these necessarily come from the target address unless the responder is the perturbation
 DirectPerts(v) ==
     CASE v \in {"icmp4", "icmp6"} ->
@@ -161,6 +165,8 @@ C01All(u) ==
     UNION { UNION {
         { C01Scen(v, s, BaseMid, pt, "after", r) : pt \in QuotePerts(v) \cup DirectPerts(v), r \in TTLRanges \ {<<1, 4>>} }
       : s \in StrictOpts(v) } : v \in Variants }
+    \cup
+    UNION { UNION { { C01Scen(v, s, BaseMid, pt, "after", <<1, 4>>) : pt \in QuotePertsT(v) } : s \in StrictOpts(v) } : v \in Variants }
     \cup
     \* (d) the tool's own outgoing probes looped back to the capture handles
     { Common(v, TRUE, b, 1, 4) @@ [id |-> "C01/" \o v \o "/loop/" \o b.name, label |-> v \o "/own_probes", loop |-> TRUE,
@@ -253,7 +259,16 @@ C04Scen(v, strict, form, resp, late) ==
                 ELSE IF t = 5 /\ late THEN <<Dest(v, 9000)>>
                 ELSE IF t = 5 THEN <<>>
                 ELSE <<TE(v, t, 3000 + 500 * t)>>])]
-C04All(u) == UNION { { C04Scen(v, s, f, r, l) : s \in StrictOpts(v), f \in C04Forms(v), r \in Responders(v), l \in BOOLEAN } : v \in Variants }
+\* every destination-unreachable CODE (IPv4 0..15, IPv6 0..7) from the target and from a router: for UDP the target's is the
+\* proof of arrival whatever its code, the router's is a hop; for the other variants none of them proves anything
+DuCodes(v) == IF IsV6(v) THEN 0..7 ELSE 0..15
+C04Code(v, code, resp) ==
+    [C04Scen(v, TRUE, "du_port", resp, TRUE) EXCEPT
+        !.id = "C04/" \o v \o "/du_code/" \o ToString(code) \o "/" \o resp,
+        !.label = v \o "/du_code" \o ToString(code) \o "/from_" \o (IF resp = "TARGET" THEN "target" ELSE "router"),
+        !.path = [@ EXCEPT !["3"] = <<[form |-> "du_port", from |-> resp, delay_us |-> 4000, tag |-> "x", mods |-> [icode |-> code]]>>]]
+C04Codes == UNION { { C04Code(v, c, r) : c \in DuCodes(v), r \in {"TARGET", Router(v, 3)} } : v \in Variants }
+C04All(u) == C04Codes \cup UNION { { C04Scen(v, s, f, r, l) : s \in StrictOpts(v), f \in C04Forms(v), r \in Responders(v), l \in BOOLEAN } : v \in Variants }
 
 ---------------------------------------------------------------------------
 (***************************************************************************)
@@ -308,7 +323,12 @@ C05Stall(v) ==
      id |-> "C05/stall/" \o v, label |-> v \o "/write_blocks_while_reply_arrives",
      write_stall_us |-> [x \in {"2"} |-> 400000],
      path |-> PathOf([t \in 1..3 |-> IF t = 3 THEN <<[form |-> DestForm1(v), delay_us |-> 30000]>> ELSE <<[form |-> "te", from |-> Router(v, t), delay_us |-> IF t = 1 THEN 120000 ELSE 30000]>>])]
-C05All(u) == { C05Stall(v) : v \in {"icmp4", "udp4", "udp6", "sack"} } \cup { C05Scen(v, TRUE, ds, du, dd) : v \in Variants, ds \in [1..3 -> DelaySet], du \in 0..4, dd \in {9100, 601300} }
+\* identifier bases at their wrap-around points: the RTT of every hop is still measured from ITS OWN probe
+C05Base(v, b, dd) ==
+    [C05Scen(v, TRUE, [t \in 1..3 |-> IF t = 2 THEN 133700 ELSE 7300], 0, dd) EXCEPT
+        !.id = "C05/base/" \o v \o "/" \o b.name \o "/" \o ToString(dd), !.label = v \o "/delays/identifier_wrap",
+        !.ipid_base = b.ipid_base, !.echo_base = b.echo_base, !.seq_base32 = b.seq_base, !.isn32 = b.isn]
+C05All(u) == { C05Base(v, b, dd) : v \in Variants, b \in Bases \ {BaseMid}, dd \in {9100, 601300} } \cup { C05Stall(v) : v \in {"icmp4", "udp4", "udp6", "sack"} } \cup { C05Scen(v, TRUE, ds, du, dd) : v \in Variants, ds \in [1..3 -> DelaySet], du \in 0..4, dd \in {9100, 601300} }
              \cup { C05Late(v, f, w) : v \in {"tcp", "tcp_paris"}, f \in {"synack", "rstack", "rst", "te"}, w \in {2, 3} }
              \cup { C05Eager(v, du) : v \in Variants, du \in 0..4 }
              \cup { C05SackWrap(x, d, b) : x \in {<<6>>, <<5, 6>>, <<>>}, d \in BOOLEAN, b \in {bb \in Bases : bb.name \in {"wrap5", "mid", "wrap"}} }
@@ -415,6 +435,16 @@ JunkSet(v) ==
                         : f \in {"ack_nosack", "synack", "rst"}, m \in {<<"sport+1", [sport |-> 1]>>, <<"dport+1", [dport |-> 1]>>, <<"dport-1000", [dport |-> -1000]>>} }
               ELSE {})
 
+\* packets of the wrong IP version that carry the right identifiers: the IPv6 rendering of a genuine IPv4 reply between the
+\* IPv4-MAPPED addresses (::ffff:a.b.c.d) is not a reply to an IPv4 probe; and on the probed SACK connection itself a
+\* duplicate ACK whose only block is EMPTY (left edge = right edge, far from anything sent) acknowledges nothing: skipped
+JunkMore(v) ==
+    (IF IsV6(v) \/ v \in {"tcp", "tcp_paris", "sack"} THEN {} ELSE
+        { Junk("te/mapped6", "te", <<>>, 0, 0) @@ [mapped6 |-> TRUE] }
+        \cup (IF v = "icmp4" THEN { Junk("echo/mapped6", "echo", <<>>, 0, 0) @@ [mapped6 |-> TRUE, from |-> "TARGET"] } ELSE {}))
+    \cup (IF v = "sack" THEN { Junk("sack/empty_block/" \o ToString(e), "sack", <<>>, 0, 0) @@ [from |-> "TARGET", mods |-> [sack_width |-> 0], mods_d |-> [sack_left |-> e]]
+                                   : e \in {1000000, -70000} } ELSE {})
+
 C09Clean(v, s, b) == Common(v, s, b, 1, 4) @@ [id |-> "C09/" \o v \o "/" \o b.name \o "/clean", label |-> v \o "/clean", path |-> Background(v, 1, 4, 4, {3})]
 \* batches of junk (all of it must be ignored, so one run absorbs many); the check re-runs a violating batch one packet at a time
 C09Noisy(v, s, b, js, k, at) ==
@@ -424,6 +454,8 @@ C09Noisy(v, s, b, js, k, at) ==
      inject |-> [i \in 1..Len(js) |-> [at_us |-> at + 37 * i, for_ttl |-> 3, form |-> js[i].form,
                                        from |-> IF "from" \in DOMAIN js[i] THEN js[i].from ELSE Foreign(v, 100 + (i % 100)),
                                        mods_d |-> IF "mods_d" \in DOMAIN js[i] THEN js[i].mods_d ELSE NoMods,
+                                       mods |-> IF "mods" \in DOMAIN js[i] THEN js[i].mods ELSE NoMods,
+                                       mapped6 |-> IF "mapped6" \in DOMAIN js[i] THEN js[i].mapped6 ELSE FALSE,
                                        patch |-> js[i].patch, trunc |-> js[i].trunc, append |-> js[i].append, tag |-> js[i].label]]]
 Chunks(sq, n) == [k \in 1..((Len(sq) + n - 1) \div n) |-> SubSeq(sq, (k - 1) * n + 1, IF k * n > Len(sq) THEN Len(sq) ELSE k * n)]
 \* a steady stream of packets that must be skipped (4 per millisecond: truncated junk / a time-exceeded about somebody else's flow /
@@ -434,7 +466,7 @@ C09Flood(v, kind) ==
      path |-> Background(v, 1, 4, 4, {3}), flood_n |-> 2, flood_us |-> 500, flood_kind |-> kind]
 C09All(u) ==
     UNION { { C09Flood(v, k) : k \in {"junk", "te_other", "foreign_tcp"} } : v \in Variants } \cup
-    UNION { LET ch == Chunks(SetToSeq(JunkSet(v)), 20) IN
+    UNION { LET ch == Chunks(SetToSeq(JunkSet(v)) \o SetToSeq(JunkMore(v)), 20) IN
             { C09Clean(v, TRUE, BaseMid) } \cup { C09Noisy(v, TRUE, BaseMid, ch[k], k, at) : k \in DOMAIN ch, at \in {500, 30000, 200000} }
           : v \in Variants }
 
@@ -501,6 +533,31 @@ C14SackTS(cls, dupl) ==
 C14All(u) == { C14SackTS(c, d) : c \in {"tie", "after", "nexttie"}, d \in BOOLEAN } \cup { C14Scen(v, "nexttie", d) : v \in ParVariants, d \in BOOLEAN } \cup { C14Scen(v, c, d) : v \in ParVariants, c \in {"early", "tie", "after", "mixed"}, d \in BOOLEAN }
 
 ---------------------------------------------------------------------------
+(***************************************************************************)
+(* C07 (wire level): SEVERAL accepted replies to ONE probe, through the    *)
+(* real drivers of the parallel-capable variants - a router and then the   *)
+(* destination (per-flow load balancing over paths of different length),   *)
+(* the destination and then a router, two routers, the destination twice - *)
+(* one millisecond apart (same poll) or 150 ms apart (a later poll).       *)
+(***************************************************************************)
+C07Pair(v, strict, ord, gap, k) ==
+    LET r(us)  == [form |-> "te", from |-> Router(v, k), delay_us |-> us, tag |-> "g"]
+        r2(us) == [form |-> "te", from |-> Foreign(v, 9), delay_us |-> us, tag |-> "g"]
+        d(us)  == [form |-> DestForm1(v), delay_us |-> us, tag |-> "g"]
+        a == 4000
+        reps == CASE ord = "router_dest"    -> <<r(a), d(a + gap)>>
+                  [] ord = "dest_router"    -> <<d(a), r(a + gap)>>
+                  [] ord = "router_router2" -> <<r(a), r2(a + gap)>>
+                  [] ord = "dest_dest"      -> <<d(a), d(a + gap)>>
+                  [] ord = "router2_router_dest" -> <<r2(a), r(a + gap), d(a + 2 * gap)>>
+    IN Common(v, strict, BaseMid, 1, 5) @@
+       [id |-> "C07/wire/" \o v \o "/" \o (IF strict THEN "strict" ELSE "relaxed") \o "/" \o ord \o "/" \o ToString(gap) \o "/" \o ToString(k),
+        label |-> v \o "/several_replies_to_one_probe/" \o ord \o "/" \o ToString(gap),
+        path |-> PathOf([t \in 1..5 |-> IF t = k THEN reps ELSE IF t = 5 THEN <<Dest(v, 9000)>> ELSE <<TE(v, t, 3000 + 500 * t)>>])]
+C07All(u) == UNION { { C07Pair(v, s, o, g, k) : s \in StrictOpts(v), o \in {"router_dest", "dest_router", "router_router2", "dest_dest", "router2_router_dest"},
+                                              g \in {1000, 150000}, k \in {2, 3} } : v \in ParVariants }
+
+---------------------------------------------------------------------------
 Cases == CASE Gen = "C01" -> C01All(0)
            [] Gen = "C02" -> C02All(NMax)
            [] Gen = "C04" -> C04All(0)
@@ -510,6 +567,7 @@ Cases == CASE Gen = "C01" -> C01All(0)
            [] Gen = "C14" -> C14All(0)
            [] Gen = "C09" -> C09All(0)
            [] Gen = "C10" -> C10All(0)
+           [] Gen = "C07" -> C07All(0)
            [] OTHER -> {}
 
 Sampled == Gen \in {"C02"}      \* families that sample their parameter space themselves
